@@ -194,8 +194,10 @@ def refine(sig, t, scfg, detail):
                 s = c.get('source', '')
                 parts = pyspec.splitlines_keepends(s)
                 if parts and parts[-1] and parts[-1][-1] not in pyspec.LINESEPS: tails.add(parts[-1])
-        def glued(f):
-            return any(f.startswith(x) and f[len(x):] in have for x in tails if x and len(f) > len(x))
+        def glued(f, depth=0):
+            # one or more unterminated last lines, then a line that exists (or another such tail)
+            return any(f.startswith(x) and (f[len(x):] in have or (depth < 6 and glued(f[len(x):], depth + 1)))
+                       for x in tails if x and len(f) > len(x))
         if lines and all(glued(f) for f in lines):
             return 'unterminated-inserted-line-glued-to-next-line'
     return sig
